@@ -562,6 +562,21 @@ func (fs *fileSystem) Rename(oldname, newname string) error {
 			// is not (yet) supported.
 			return oldinode, ErrInvalidArgument
 		}
+		if fn, ok := oldinode.(*filenode); ok && olddirf.inode != newdirf.inode {
+			// An asynchronous flush might be writing
+			// data from this file and from other files
+			// in olddir to Keep as a single block. If we
+			// moved the file to a different directory
+			// now, a later MarshalManifest() could lock
+			// those other files, then wait (in the new
+			// directory) for this file's pending flush,
+			// which cannot finish without locking those
+			// other files: deadlock. Wait for pending
+			// flushes to finish first. (No new
+			// multi-file flush can start meanwhile,
+			// because we hold olddir's lock.)
+			fn.waitPrune()
+		}
 		accepted, err := newdirf.inode.Child(newname, func(existing inode) (inode, error) {
 			if existing != nil && existing.IsDir() {
 				return existing, ErrIsDirectory
